@@ -5,7 +5,7 @@
    number of steps.  Per axis either m = 1 (any halo, e.g. a wall) or lo * hi = 1 (periodic 1/1, Bloch phase / conj phase)
    and the first and last cell widths agree (the source's dual width at cell 0 is w0, not (w0 + w_{N-1})/2). *)
 From Coq Require Import List Arith Lia Field Ring.
-From FV Require Import base.Scalar base.Cplx model.Yee proofs.Yee_steps proofs.Yee_tile.
+From FV Require Import base.Scalar base.Cplx model.Yee model.YeeExec model.YeeFull proofs.Yee_steps proofs.Yee_tile proofs.Yee_reverse proofs.Yee_full_reverse proofs.Yee_full_props.
 Import ListNotations.
 Local Open Scope fld_scope.
 
@@ -276,6 +276,139 @@ Section Tile3.
     rewrite c1, c2, c3. unfold TV, TA, TR; cbn [vx vy vz]. repeat split; cx.
   Qed.
 
+
+  (* ================= the fully anisotropic lossless tiers (model/YeeFull.v) ================= *)
+  Definition TT (T : T9 K) : T9 K := fun r s => TR (T r s).
+  Definition TTo (T : option (T9 K)) : option (T9 K) := match T with Some t => Some (TT t) | None => None end.
+  Notation inBx := (inb K Tscene).
+
+  (* one-cell shifts of a tiled array are the tiled shifts, on the big box *)
+  Lemma shp_tile a f i j k : (a <= 2)%nat -> inB i j k -> shp K Tscene a (TA f) i j k = TA (shp K sc a f) i j k.
+  Proof.
+    intros Ha (Hi & Hj & Hk). destruct a as [|[|[|a]]]; [| | |lia]; cbn [shp nx ny nz hix hiy hiz Tscene].
+    - rewrite (nxt_extA K _ _ (fun q => TA f q j k) (tl1 K Nx (hix K sc) (cmul (py j) (pz k)) (fun q => f q (j mod Ny) (k mod Nz)))) by reflexivity.
+      rewrite (nxt_tile1 K Nx mx (hix K sc) _ _ HNx i Hi). reflexivity.
+    - rewrite (nxt_extA K _ _ (fun q => TA f i q k) (tl1 K Ny (hiy K sc) (cmul (px i) (pz k)) (fun q => f (i mod Nx) q (k mod Nz)))).
+      2:{ intros q. unfold TA, tl1. rewrite ph_y. fold (py q). rewrite cmul_assoc. reflexivity. }
+      rewrite (nxt_tile1 K Ny my (hiy K sc) _ _ HNy j Hj). unfold TA. rewrite ph_y. fold (py j). rewrite cmul_assoc. reflexivity.
+    - rewrite (nxt_extA K _ _ (fun q => TA f i j q) (tl1 K Nz (hiz K sc) (cmul (px i) (py j)) (fun q => f (i mod Nx) (j mod Ny) q))).
+      2:{ intros q. unfold TA, tl1. rewrite ph_z. fold (pz q). rewrite cmul_assoc. reflexivity. }
+      rewrite (nxt_tile1 K Nz mz (hiz K sc) _ _ HNz k Hk). unfold TA. rewrite ph_z. fold (pz k). rewrite cmul_assoc. reflexivity.
+  Qed.
+  Lemma shm_tile a f i j k : (a <= 2)%nat -> inB i j k -> shm K Tscene a (TA f) i j k = TA (shm K sc a f) i j k.
+  Proof.
+    intros Ha (Hi & Hj & Hk). destruct a as [|[|[|a]]]; [| | |lia]; cbn [shm nx ny nz lox loy loz Tscene].
+    - rewrite (prv_extA K _ _ (fun q => TA f q j k) (tl1 K Nx (hix K sc) (cmul (py j) (pz k)) (fun q => f q (j mod Ny) (k mod Nz)))) by reflexivity.
+      rewrite (prv_tile1 K Nx mx (hix K sc) (lox K sc) _ _ HNx Hx i Hi). reflexivity.
+    - rewrite (prv_extA K _ _ (fun q => TA f i q k) (tl1 K Ny (hiy K sc) (cmul (px i) (pz k)) (fun q => f (i mod Nx) q (k mod Nz)))).
+      2:{ intros q. unfold TA, tl1. rewrite ph_y. fold (py q). rewrite cmul_assoc. reflexivity. }
+      rewrite (prv_tile1 K Ny my (hiy K sc) (loy K sc) _ _ HNy Hy j Hj). unfold TA. rewrite ph_y. fold (py j). rewrite cmul_assoc. reflexivity.
+    - rewrite (prv_extA K _ _ (fun q => TA f i j q) (tl1 K Nz (hiz K sc) (cmul (px i) (py j)) (fun q => f (i mod Nx) (j mod Ny) q))).
+      2:{ intros q. unfold TA, tl1. rewrite ph_z. fold (pz q). rewrite cmul_assoc. reflexivity. }
+      rewrite (prv_tile1 K Nz mz (hiz K sc) (loz K sc) _ _ HNz Hz k Hk). unfold TA. rewrite ph_z. fold (pz k). rewrite cmul_assoc. reflexivity.
+  Qed.
+  Lemma inB_inb i j k : inB i j k <-> inBx i j k.
+  Proof. unfold inB, inb. cbn [nx ny nz Tscene]. tauto. Qed.
+
+  Lemma avgE_tile f c l i j k : (c <= 2)%nat -> (l <= 2)%nat -> inB i j k ->
+    avgE K Tscene (TA f) c l i j k = TA (avgE K sc f c l) i j k.
+  Proof.
+    intros Hc Hl HB. unfold avgE. rewrite (shp_tile l f i j k Hl HB), (shm_tile c f i j k Hc HB).
+    assert (E : aeq K Tscene (shm K Tscene c (TA f)) (TA (shm K sc c f))).
+    { intros a b d Hb. apply shm_tile; [exact Hc | apply inB_inb; exact Hb]. }
+    rewrite (shp_ext K Tscene l _ _ E i j k (proj1 (inB_inb i j k) HB)), (shp_tile l _ i j k Hl HB).
+    unfold TA. cbn [rf cn Tscene]. cx.
+  Qed.
+  Lemma avgH_tile f c l i j k : (c <= 2)%nat -> (l <= 2)%nat -> inB i j k ->
+    avgH K Tscene (TA f) c l i j k = TA (avgH K sc f c l) i j k.
+  Proof.
+    intros Hc Hl HB. unfold avgH. rewrite (shm_tile l f i j k Hl HB), (shp_tile c f i j k Hc HB).
+    assert (E : aeq K Tscene (shp K Tscene c (TA f)) (TA (shp K sc c f))).
+    { intros a b d Hb. apply shp_tile; [exact Hc | apply inB_inb; exact Hb]. }
+    rewrite (shm_ext K Tscene l _ _ E i j k (proj1 (inB_inb i j k) HB)), (shm_tile l _ i j k Hl HB).
+    unfold TA. cx.
+  Qed.
+
+  Lemma comp_TV v r : comp K (TV v) r = TA (comp K v r).
+  Proof. destruct r as [|[|r]]; reflexivity. Qed.
+  Lemma at_loc_tileE v r s i j k : (r <= 2)%nat -> (s <= 2)%nat -> inB i j k ->
+    at_loc K (avgE K Tscene) (TV v) r s i j k = TA (at_loc K (avgE K sc) v r s) i j k.
+  Proof.
+    intros Hr Hs HB. unfold at_loc. destruct (Nat.eqb r s); rewrite comp_TV; [reflexivity | apply avgE_tile; assumption].
+  Qed.
+  Lemma at_loc_tileH v r s i j k : (r <= 2)%nat -> (s <= 2)%nat -> inB i j k ->
+    at_loc K (avgH K Tscene) (TV v) r s i j k = TA (at_loc K (avgH K sc) v r s) i j k.
+  Proof.
+    intros Hr Hs HB. unfold at_loc. destruct (Nat.eqb r s); rewrite comp_TV; [reflexivity | apply avgH_tile; assumption].
+  Qed.
+  Lemma tvecE_tile T v i j k : inB i j k ->
+    vx (tvec K Tscene (avgE K Tscene) (TT T) (TV v)) i j k = TA (vx (tvec K sc (avgE K sc) T v)) i j k /\
+    vy (tvec K Tscene (avgE K Tscene) (TT T) (TV v)) i j k = TA (vy (tvec K sc (avgE K sc) T v)) i j k /\
+    vz (tvec K Tscene (avgE K Tscene) (TT T) (TV v)) i j k = TA (vz (tvec K sc (avgE K sc) T v)) i j k.
+  Proof.
+    intros HB. unfold tvec, trow; cbn [vx vy vz cn Tscene]. unfold TT, TR.
+    rewrite !at_loc_tileE by (lia || exact HB). unfold TA. repeat split; cx.
+  Qed.
+  Lemma tvecH_tile T v i j k : inB i j k ->
+    vx (tvec K Tscene (avgH K Tscene) (TT T) (TV v)) i j k = TA (vx (tvec K sc (avgH K sc) T v)) i j k /\
+    vy (tvec K Tscene (avgH K Tscene) (TT T) (TV v)) i j k = TA (vy (tvec K sc (avgH K sc) T v)) i j k /\
+    vz (tvec K Tscene (avgH K Tscene) (TT T) (TV v)) i j k = TA (vz (tvec K sc (avgH K sc) T v)) i j k.
+  Proof.
+    intros HB. unfold tvec, trow; cbn [vx vy vz cn Tscene]. unfold TT, TR.
+    rewrite !at_loc_tileH by (lia || exact HB). unfold TA. repeat split; cx.
+  Qed.
+
+  (* curls of tiled fields as box equalities of vector fields *)
+  Lemma curlH_tileB H : veqB K Tscene (curlH_raw K Tscene (TV H)) (TV (curlH_raw K sc H)).
+  Proof. intros i j k Hi Hj Hk. apply curlH_tile. repeat split; assumption. Qed.
+  Lemma curlE_tileB E : veqB K Tscene (curlE_raw K Tscene (TV E)) (TV (curlE_raw K sc E)).
+  Proof. intros i j k Hi Hj Hk. apply curlE_tile. repeat split; assumption. Qed.
+  Lemma veqB_veq u v : veqB K Tscene u v -> veq_box K Tscene u v.
+  Proof. intros H i j k (Hi & Hj & Hk). apply H; assumption. Qed.
+  Lemma veq_veqB u v : veq_box K Tscene u v -> veqB K Tscene u v.
+  Proof. intros H i j k Hi Hj Hk. apply H. repeat split; assumption. Qed.
+
+  Lemma stepE_full_tile T J E H i j k : inB i j k ->
+    vx (stepE_full K Tscene (TT T) (TV J) (TV E) (TV H)) i j k = vx (TV (stepE_full K sc T J E H)) i j k /\
+    vy (stepE_full K Tscene (TT T) (TV J) (TV E) (TV H)) i j k = vy (TV (stepE_full K sc T J E H)) i j k /\
+    vz (stepE_full K Tscene (TT T) (TV J) (TV E) (TV H)) i j k = vz (TV (stepE_full K sc T J E H)) i j k.
+  Proof.
+    intros HB.
+    destruct (tvec_ext K Tscene (avgE K Tscene) (TT T) _ _ (avgE_ext K Tscene) (veqB_veq _ _ (curlH_tileB H)) i j k (proj1 (inB_inb i j k) HB)) as (a1 & a2 & a3).
+    destruct (tvecE_tile T (curlH_raw K sc H) i j k HB) as (b1 & b2 & b3).
+    unfold stepE_full, vmask, vadd, vmap2; cbn [vx vy vz mE Tscene TM m1 m2 m3]. rewrite a1, a2, a3, b1, b2, b3.
+    unfold TV, TA, TR; cbn [vx vy vz]. repeat split; cx.
+  Qed.
+  Lemma stepH_full_tile T J E H i j k : inB i j k ->
+    vx (stepH_full K Tscene (TT T) (TV J) (TV E) (TV H)) i j k = vx (TV (stepH_full K sc T J E H)) i j k /\
+    vy (stepH_full K Tscene (TT T) (TV J) (TV E) (TV H)) i j k = vy (TV (stepH_full K sc T J E H)) i j k /\
+    vz (stepH_full K Tscene (TT T) (TV J) (TV E) (TV H)) i j k = vz (TV (stepH_full K sc T J E H)) i j k.
+  Proof.
+    intros HB.
+    destruct (tvec_ext K Tscene (avgH K Tscene) (TT T) _ _ (avgH_ext K Tscene) (veqB_veq _ _ (curlE_tileB E)) i j k (proj1 (inB_inb i j k) HB)) as (a1 & a2 & a3).
+    destruct (tvecH_tile T (curlE_raw K sc E) i j k HB) as (b1 & b2 & b3).
+    unfold stepH_full, vmask, vadd, vsub, vmap2; cbn [vx vy vz mH Tscene TM m1 m2 m3]. rewrite a1, a2, a3, b1, b2, b3.
+    unfold TV, TA, TR; cbn [vx vy vz]. repeat split; cx.
+  Qed.
+
+  (* box extensionality of the full half steps on the supercell *)
+  Lemma stepE_full_extB T J J' E E' H H' : veqB K Tscene J J' -> veqB K Tscene E E' -> veqB K Tscene H H' ->
+    veqB K Tscene (stepE_full K Tscene T J E H) (stepE_full K Tscene T J' E' H').
+  Proof.
+    intros HJ HE HH i j k Hi Hj Hk. assert (Hb : inBx i j k) by (repeat split; assumption).
+    destruct (tvec_ext K Tscene (avgE K Tscene) T _ _ (avgE_ext K Tscene) (veqB_veq _ _ (curlH_raw_extB K Tscene H H' HH)) i j k Hb) as (t1 & t2 & t3).
+    destruct (HJ i j k Hi Hj Hk) as (j1 & j2 & j3). destruct (HE i j k Hi Hj Hk) as (e1 & e2 & e3).
+    unfold stepE_full, vmask, vadd, vmap2; cbn [vx vy vz]. rewrite t1, t2, t3, j1, j2, j3, e1, e2, e3. repeat split.
+  Qed.
+  Lemma stepH_full_extB T J J' E E' H H' : veqB K Tscene J J' -> veqB K Tscene E E' -> veqB K Tscene H H' ->
+    veqB K Tscene (stepH_full K Tscene T J E H) (stepH_full K Tscene T J' E' H').
+  Proof.
+    intros HJ HE HH i j k Hi Hj Hk. assert (Hb : inBx i j k) by (repeat split; assumption).
+    destruct (tvec_ext K Tscene (avgH K Tscene) T _ _ (avgH_ext K Tscene) (veqB_veq _ _ (curlE_raw_extB K Tscene E E' HE)) i j k Hb) as (t1 & t2 & t3).
+    destruct (HJ i j k Hi Hj Hk) as (j1 & j2 & j3). destruct (HH i j k Hi Hj Hk) as (e1 & e2 & e3).
+    unfold stepH_full, vmask, vadd, vsub, vmap2; cbn [vx vy vz]. rewrite t1, t2, t3, j1, j2, j3, e1, e2, e3. repeat split.
+  Qed.
+
   Hypothesis Hpml : pmls K sc = [].
 
   (* the supercell state agrees with the tiled unit-cell state on the big box *)
@@ -301,4 +434,29 @@ Section Tile3.
   Fixpoint iterT (s0 : scene K) (n : nat) (st : state K) : state K := match n with O => st | S p => iterT s0 p (forward K s0 st) end.
   Theorem forward_tiles_n n : forall S s, tiles S s -> tiles (iterT Tscene n S) (iterT sc n s).
   Proof. induction n as [|n IH]; intros S s H; [exact H|]. cbn [iterT]. apply IH, forward_tiles, H. Qed.
+
+  (* the supercell statement for the full tiers: tiled tensors TT T on the supercell *)
+  Theorem forward_full_tiles ie9 im9 S s : tiles S s -> tiles (forward_full K Tscene (TTo ie9) (TTo im9) S) (forward_full K sc ie9 im9 s).
+  Proof.
+    intros (HE & HH & HT).
+    destruct (forward_full_steps K sc Hpml ie9 im9 s) as (e & h & t).
+    destruct (forward_full_steps K Tscene eq_refl (TTo ie9) (TTo im9) S) as (e' & h' & t').
+    assert (A : veqB K Tscene (fE (forward_full K Tscene (TTo ie9) (TTo im9) S)) (TV (fE (forward_full K sc ie9 im9 s)))).
+    { rewrite e', e. cbn [injE Tscene]. rewrite HT. destruct ie9 as [T|]; cbn [TTo stepE_gen].
+      - eapply veqB_trans; [apply (stepE_full_extB (TT T) _ (TV (injE K sc (tstep s))) _ (TV (fE s)) _ (TV (fH s))); [apply veqB_refl | exact HE | exact HH]|].
+        intros i j k Hi Hj Hk. apply stepE_full_tile. repeat split; assumption.
+      - eapply veqB_trans; [apply (stepE_extB K Tscene _ (TV (injE K sc (tstep s))) _ (TV (fE s)) _ (TV (fH s))); [apply veqB_refl | exact HE | exact HH]|].
+        intros i j k Hi Hj Hk. apply stepE_tile. repeat split; assumption. }
+    split; [exact A|]. split.
+    - rewrite h', h. cbn [injH Tscene]. rewrite HT. destruct im9 as [T|]; cbn [TTo stepH_gen].
+      + eapply veqB_trans; [apply (stepH_full_extB (TT T) _ (TV (injH K sc (tstep s))) _ (TV (fE (forward_full K sc ie9 (Some T) s))) _ (TV (fH s))); [apply veqB_refl | exact A | exact HH]|].
+        intros i j k Hi Hj Hk. apply stepH_full_tile. repeat split; assumption.
+      + eapply veqB_trans; [apply (stepH_extB K Tscene _ (TV (injH K sc (tstep s))) _ (TV (fE (forward_full K sc ie9 None s))) _ (TV (fH s))); [apply veqB_refl | exact A | exact HH]|].
+        intros i j k Hi Hj Hk. apply stepH_tile. repeat split; assumption.
+    - rewrite t', t, HT. reflexivity.
+  Qed.
+  Fixpoint iterTF (s0 : scene K) (e m : option (T9 K)) (n : nat) (st : state K) : state K :=
+    match n with O => st | S p => iterTF s0 e m p (forward_full K s0 e m st) end.
+  Theorem forward_full_tiles_n ie9 im9 n : forall S s, tiles S s -> tiles (iterTF Tscene (TTo ie9) (TTo im9) n S) (iterTF sc ie9 im9 n s).
+  Proof. induction n as [|n IH]; intros S s H; [exact H|]. cbn [iterTF]. apply IH, forward_full_tiles, H. Qed.
 End Tile3.
